@@ -9,6 +9,7 @@ import (
 	"errors"
 	"fmt"
 	"math/big"
+	"sync"
 
 	cose "github.com/veraison/go-cose"
 )
@@ -206,6 +207,57 @@ func runC01(c *Collector, r *Rng, thorough bool) {
 							fail("sign1-wire-later", "a decoded message that verified stops verifying after other messages were decoded: "+err.Error(), rr)
 						}
 					})
+				}
+				// the same message as a relay forwards it: the protected bucket's length prefix in another (longer)
+				// spelling; the signature covers the content, so it verifies - every time it is asked, and again after
+				// the receiver has re-encoded what it decoded
+				if w, perr := refParseFull(b); perr == nil && i%2 == 0 {
+					body := w
+					if w.Maj == 6 {
+						body = w.Kids[0]
+					}
+					if ws := widthsFor(uint64(len(body.Kids[0].Str))); len(ws) > 1 {
+						body.Kids[0].Width = ws[1+r.Intn(len(ws)-1)]
+						rb := w.Ser()
+						var m4 cose.Sign1Message
+						var derr error
+						if tagged {
+							derr = m4.UnmarshalCBOR(rb)
+						} else {
+							derr = (*cose.UntaggedSign1Message)(&m4).UnmarshalCBOR(rb)
+						}
+						c.Eval("sign1-respelled-protected/"+k.alg.String(), hx(trimTo(rb, 200)), true)
+						if derr != nil {
+							fail("sign1-wire", "the message with its protected length prefix re-spelled is refused: "+derr.Error(), rep)
+						} else {
+							for round := 1; round <= 3; round++ {
+								if err := m4.Verify(ext, verifier); err != nil {
+									fail("sign1-wire", fmt.Sprintf("the message with its protected length prefix re-spelled does not verify (verification number %d): %v", round, err), rep)
+									break
+								}
+							}
+							var rb2 []byte
+							var eerr error
+							if tagged {
+								rb2, eerr = m4.MarshalCBOR()
+							} else {
+								rb2, eerr = (*cose.UntaggedSign1Message)(&m4).MarshalCBOR()
+							}
+							var m5 cose.Sign1Message
+							if eerr == nil {
+								if tagged {
+									eerr = m5.UnmarshalCBOR(rb2)
+								} else {
+									eerr = (*cose.UntaggedSign1Message)(&m5).UnmarshalCBOR(rb2)
+								}
+							}
+							if eerr != nil {
+								fail("sign1-own-output-not-decodable", "a decoded and verified message cannot be encoded and parsed back: "+eerr.Error(), rep)
+							} else if err := m5.Verify(ext, verifier); err != nil {
+								fail("sign1-wire", "a decoded, verified and re-encoded message does not verify: "+err.Error(), rep)
+							}
+						}
+					}
 				}
 				// detached payload
 				det := *m
@@ -645,6 +697,7 @@ func runC03(c *Collector, r *Rng, thorough bool) {
 		}
 	}
 	c03Others(c, r, keys, thorough)
+	c03AllKeys(c, r)
 }
 
 func indexOfKey(keys []realKey, k realKey) int {
@@ -821,6 +874,71 @@ func runC07(c *Collector, r *Rng, thorough bool) {
 			if err := d.sm.Verify(ext, vfs...); err != nil {
 				c.Fail("C07/verify", "COSE_Sign signed by an independent implementation does not verify: "+err.Error(), rep)
 			}
+		}
+	}
+}
+
+// c03AllKeys: every key of the key set (all RSA modulus sizes included: 2048, 2051, 3072 bits), messages signed by the
+// standard library over the RFC structure: accepted; with one bit of the signature flipped: refused. Then one verifier
+// of each algorithm shared by 8 goroutines verifying valid messages at once: each verdict is the sequential one.
+func c03AllKeys(c *Collector, r *Rng) {
+	for _, k := range realKeySet(r) {
+		vf := k.verifier()
+		type vm struct {
+			m   *cose.Sign1Message
+			ext []byte
+		}
+		var valid []vm
+		for i := 0; i < 6; i++ {
+			ext := pick(r, [][]byte{nil, {}, []byte("external")})
+			pcontent := wMap(-1, wInt(1, -1), wInt(int64(k.alg), -1)).Ser()
+			pl := r.Bytes(r.Intn(40))
+			sig := refSign(r, k, refArray(refTstr("Signature1"), refBstr(pcontent), refBstr(orEmpty(ext)), refBstr(pl)))
+			data := wTag(18, -1, wArr(-1, wBstr(pcontent, -1), wMap(-1), wBstr(pl, -1), wBstr(sig, -1))).Ser()
+			var m cose.Sign1Message
+			rep := map[string]any{"key": k.name, "alg": k.alg.String(), "data": hx(data), "ext": hx(ext)}
+			if err := m.UnmarshalCBOR(data); err != nil {
+				c.Fail("C03/verdict", "a message signed by the standard library over the RFC structure is not decodable: "+err.Error(), rep)
+				continue
+			}
+			c.Eval("all-keys/"+k.name+"/"+k.alg.String(), hx(data), true)
+			if err := m.Verify(ext, vf); err != nil {
+				c.Fail("C03/verdict", fmt.Sprintf("Verify returned %v for a signature valid over the received bytes (key %s)", err, k.name), rep)
+				continue
+			}
+			valid = append(valid, vm{&m, ext})
+			bad := m
+			bad.Signature = append([]byte{}, m.Signature...)
+			bad.Signature[r.Intn(len(bad.Signature))] ^= 1 << uint(r.Intn(8))
+			if err := bad.Verify(ext, vf); err == nil {
+				c.Fail("C03/verdict", "Verify returned nil for a signature with one bit flipped", rep)
+			}
+		}
+		if len(valid) == 0 {
+			continue
+		}
+		var wg sync.WaitGroup
+		var mu sync.Mutex
+		refused := 0
+		for g := 0; g < 8; g++ {
+			wg.Add(1)
+			go func(g int) {
+				defer wg.Done()
+				for round := 0; round < 30; round++ {
+					v := valid[(g+round)%len(valid)]
+					var err error
+					if p, _ := protect(func() { err = v.m.Verify(v.ext, vf) }); p || err != nil {
+						mu.Lock()
+						refused++
+						mu.Unlock()
+					}
+				}
+			}(g)
+		}
+		wg.Wait()
+		c.Eval("shared-verifier/"+k.name+"/"+k.alg.String(), fmt.Sprint(len(valid)), true)
+		if refused > 0 {
+			c.Fail("C03/verdict-depends-on-concurrent-use", fmt.Sprintf("%d of 240 verifications of valid messages were refused (or panicked) when 8 goroutines shared one %v verifier", refused, k.alg), map[string]any{"key": k.name, "alg": k.alg.String()})
 		}
 	}
 }
